@@ -57,6 +57,9 @@ var c04Probes = []struct {
 	// IO functions inside a function (the probe runs in a scratch directory)
 	{"io-save-in-function", []string{`func sv() { save("c04p").entries }`, `ga1 = 1`, `println(sv())`, `ga2 = 2`, `println(sv())`}},
 	{"io-load-in-function", []string{`cnt = 1`, `save("c04q")`, `func ld() { load("c04q"); cnt }`, `println(ld())`, `cnt = 2`, `save("c04q")`, `cnt = 0`, `println(ld())`, `println(cnt)`}},
+	// the image registry is state outside the interpreter: functions reading or recreating an image run every time
+	{"image-registry-in-function", []string{`func sz9() { len(image.png("i9")) }`, `image.new("i9", 1, 1)`, `za = sz9()`, `image.new("i9", 40, 30)`, `zb = sz9()`, `println(za == zb)`,
+		`func mki(n) { image.new(n, 4, 4) }`, `mki("j9")`, `blank9 = image.png("j9")`, `image.set("j9", 1, 1, [255, 0, 0])`, `mki("j9")`, `println(image.png("j9") == blank9)`}},
 	{"cached-reader-of-deleted-constant", []string{`LIM = 5`, `func f(x) { x + LIM }`, `println(f(1))`, `del(LIM)`, `LIM = 7`, `println(f(1))`}},
 }
 
@@ -69,7 +72,7 @@ func (c04) Generate(r *core.Rng, run int, tier string) *core.History {
 	flags := gen.SwarmFlags(r.Sub("flags"))
 	flags.SameTextClosures = false
 	flags.RedefineLeafOnly = true
-	flags.NoIndexAssign = true // a cached large container mutated in place is C06's recorded aliasing finding, not a cache defect
+	flags.NoIndexAssign = true      // a cached large container mutated in place is C06's recorded aliasing finding, not a cache defect
 	flags.SmallArraysInFuncs = true // same territory: a cached array of more than 8 elements shares spare capacity between the + results of its callers
 	flags.Redefine = r.Bool(.5)
 	flags.NonDet = r.Bool(.6)
